@@ -27,7 +27,7 @@ import (
 )
 
 const (
-	MaxThreads = 24
+	MaxThreads = 64
 	maxCases   = 8
 )
 
@@ -379,7 +379,7 @@ func Choose(n int, label string) int {
 //go:norace
 func fatal(msg string) {
 	fmt.Fprintln(os.Stderr, "sched: FATAL:", msg)
-	os.Exit(2)
+	os.Exit(3) // 3 = the harness itself cannot go on (never a verdict about the code under test)
 }
 
 // Go starts f as a new controlled thread and returns its id.
